@@ -981,7 +981,11 @@ func trunc(s string, n int) string {
 func classifyHalt(what string) string {
 	switch {
 	case strings.Contains(what, "negative coin amount"):
-		return "negative-amount-refund"
+		// the known finding is the negative payout that follows from a rounding-carry part; anything else is new
+		if coreSeen.negCarryAny && len(coreSeen.negOther) == 0 {
+			return "negative-amount-refund"
+		}
+		return "negative-amount-refund-without-rounding-carry"
 	case strings.Contains(what, "insufficient balance in module account") || strings.Contains(what, "insufficient"):
 		return "custody-account-short"
 	default:
